@@ -69,6 +69,15 @@ fn length_case(rng: &mut Rng, idx: u64, rec: &mut Rec) {
     } else {
         super::c05::recv_flow(*rng.pick(&["GET", "POST", "DELETE"]))
     };
+    if !late_100 && rng.chance(1, 8) {
+        // an interim 103 is handed out first; the head behind it, offered to the same flow, decides
+        let interim = b"HTTP/1.1 103 Early Hints\r\nLink: </a.css>; rel=preload\r\n\r\n";
+        rec.cov("length/behind-an-interim-103");
+        match f.try_response(interim) {
+            Ok((k, Some(_))) if k == interim.len() => {}
+            other => return rec.fail("C08/setup", format!("interim 103: {:?}", other.map(|v| v.0))),
+        }
+    }
     if late_100 {
         let interim = b"HTTP/1.1 100 Continue\r\n\r\n";
         let mut first = interim.to_vec();
